@@ -117,6 +117,22 @@ CLAIMED = {
              'differential execution plus the attribute scan (the model has no violation-type input at all).',
         technique='Coq proof by induction on hints (guarded lazy reduction = simultaneous substitution under stability) + shared-core generator proof + differential correspondence',
         design='5/C18'),
+    'C03': dict(
+        text='Machine-checked (Coq 8.16.1): (1) the expression generated for (hint, configuration) evaluates to the one '
+             'function check(conf, hint, object, draw) on every well-formed object without raising - the verdict no '
+             'entry point can change; (2) a model of the hand-written explanation path (find_cause over every hint '
+             'family, strategies O1 and On) is proved to find a cause whenever that verdict is a rejection, for '
+             'every hint, object, draw and sampler mode - so a rejection never becomes the internal '
+             'desynchronisation error; (3) every cause it reports is proved to be a genuine violation of the '
+             'full-depth meaning. Tied to the code on every run: the real error path is invoked directly on every '
+             'generated case (accepted or rejected) and compared with find_cause; six entry points x six settings of '
+             'violation_* classes (exceptions and warnings), verbosity, is_color and strategy are compared for one '
+             'verdict, the exact configured class raised or warned once with the call proceeding, the hint named in '
+             'the message, and culprits beginning with the rejected object.',
+        note=CORE_NOTE + ' The class/kind of the signal, the message text and culprits are decided by differential '
+             'execution (they are not modelled beyond found / not found).',
+        technique='Coq proof by induction on hints (explanation path finds a cause iff needed; causes are genuine) + shared-core generator proof + differential correspondence incl. direct invocation of the error path',
+        design='5/C03'),
     'C04': dict(
         text='Machine-checked (Coq 8.16.1): for every signature over the five parameter kinds with pairwise '
              'distinct names and every call that CPython\'s binding rule accepts, the values selected by the '
